@@ -72,7 +72,7 @@ Fixpoint rmatch (r : rx) {A : Type} (fuel : nat) (s : inp) (k : inp -> option A)
   | RBol => if fst s =? 0 then k s else None
   | REol => match snd s with
             | [] => k s
-            | [10] => k s      (* $ also matches before a trailing newline *)
+            | [c] => if c =? 10 then k s else None   (* $ also matches before a trailing newline *)
             | _ => None
             end
   end.
